@@ -24,6 +24,7 @@ sys.path.insert(0, HERE)
 
 import leanside  # noqa: E402
 import drift     # noqa: E402
+import covsample  # noqa: E402
 
 TRUSTED_BASE = [
     'Lean 4.33.0 kernel (leanchecker re-check in the thorough tier)',
@@ -182,7 +183,20 @@ def run_check(prop, tier, seed, jobs, budget_s):
 
     # ---- step 2: correspondence + oracle ---------------------------------------------------
     n_eval, hist, nontriv, samples, fails = 0, {}, set(), [], []
-    gen = mod.gen(tier, seed, boost)
+    cov_sample = []
+    sample_rng = random.Random(seed ^ 0x5EED)
+
+    def _tap(it):
+        # reservoir-sample cases of this run for the anchored-line coverage measurement
+        for k, c in enumerate(it):
+            if len(cov_sample) < 1500:
+                cov_sample.append(c)
+            else:
+                j = sample_rng.randrange(k + 1)
+                if j < 1500:
+                    cov_sample[j] = c
+            yield c
+    gen = _tap(mod.gen(tier, seed, boost))
     timed_out = False
     harness_error = None
     try:
@@ -268,6 +282,10 @@ def run_check(prop, tier, seed, jobs, budget_s):
                                        note=f'searched {n_eval} inputs on the real code with the oracle; none fails'))
         violations.append((path, True))
 
+    try:
+        anchored_cov = covsample.measure(prop, mod, cov_sample)
+    except Exception as e:
+        anchored_cov = dict(error=repr(e))
     wall = time.time() - t0
     ev = dict(
         property_id=prop, tier=tier, seed=seed, level='proof', wall_s=round(wall, 2),
@@ -287,6 +305,7 @@ def run_check(prop, tier, seed, jobs, budget_s):
             stale_findings=stale, drifted_anchors=drifted, boosted=boost,
             failures_seen=len(fails), timed_out=timed_out, harness_error=harness_error,
             explanation=getattr(mod, 'EXPLANATION', ''),
+            anchored_function_coverage=anchored_cov,
         ),
         assumptions=list(getattr(mod, 'ASSUMPTIONS', [])),
     )
